@@ -441,13 +441,22 @@ def r4_algebra(repo: Repo, rep):
         raise AnalysisError("Points.__eq__ vanished")
     rep.saw(fi)
     o = fi.params[1]
-    for p in _ret_paths(fi):
-        r = p.ret
-        good = isinstance(r, ast.BoolOp) and isinstance(r.op, ast.And) and len(r.values) == 2
-        if good:
-            a, b = sorted(dump(v) for v in r.values)
-            good = {a, b} == {f"self.space == {o}.space", f"torch.equal(self._t, {o}._t)"} or {a, b} == {f"{o}.space == self.space", f"torch.equal(self._t, {o}._t)"}
-        rep.check(R, good, fi.site(), fi.fq, "__eq__ = (self.space == other.space) and torch.equal(self._t, other._t)", dump(r), dump(r))
+    from collections import OrderedDict
+    from ..absdom.listeval import Evaluator, Opaque, UNKNOWN
+
+    def on_call_eq(e, name, args, kws, ev, f):
+        if name == "torch.equal" and args is not None and len(args) == 2 and all(isinstance(a, Opaque) for a in args):
+            return args[0].tag == args[1].tag
+        return None
+    xt, tx = OrderedDict((("x", 2), ("t", 1))), OrderedDict((("t", 1), ("x", 2)))
+    for label, sp_a, sp_b, ta, tb, want in (("same space, same data", xt, xt, "A", "A", True), ("same space, other data", xt, xt, "A", "B", False),
+                                            ("variables in another order, same data", xt, tx, "A", "A", False), ("other space", xt, OrderedDict((("x", 2),)), "A", "A", False)):
+        fr = Evaluator(None, on_call_eq).run(fi.node.body, {"self": Opaque("self"), o: Opaque("other")},
+                                              attrs={"self.space": OrderedDict(sp_a), f"{o}.space": OrderedDict(sp_b), "self._t": Opaque(ta), f"{o}._t": Opaque(tb)})
+        if fr.ret is UNKNOWN or not fr.returned:
+            rep.undecided(R, fi.site(), fi.fq, f"__eq__ evaluable ({label})", repr(fr.ret)[:60])
+            continue
+        rep.check(R, bool(fr.ret) == want, fi.site(), fi.fq, f"__eq__ ({label}) is {want}", repr(fr.ret)[:60], f"eq {label}: {fr.ret!r}")
     for mname, want in (("__eq__", "OrderedDict.__eq__(self, {o})"), ("__ne__", "OrderedDict.__ne__(self, {o})")):
         fi = S.methods.get(mname)
         if fi is None:
